@@ -408,10 +408,9 @@ def run_check(spec, res, workdir):
         opts = run[2] if len(run) > 2 else {}
         rseed = seed * 1000003 + i * 7919
         rargs = ["-seed", str(rseed)] + rargs
-        if i == 0:
-            cp = corpus_file(pid, workdir)
-            if cp:
-                rargs += ["-corpus", cp]
+        cp = corpus_file(pid, workdir, op, first=(i == 0))
+        if cp and not opts.get("runner") and not opts.get("overlay"):
+            rargs += ["-corpus", cp]
         binary = None
         if opts.get("runner"):
             okr = opts["runner"](res, workdir, rseed, rargs, opts)
@@ -500,22 +499,22 @@ def run_check(spec, res, workdir):
                "%d disagreements between model and implementation" % len(res.diffs))
 
 
-def corpus_file(pid, workdir):
-    """witnesses of the listed findings + minimised past failures; always run first"""
+def corpus_file(pid, workdir, op, first):
+    """witnesses of the listed findings (first run of the property) + minimised past failures kept
+    under corpus/<pid>/<op>.jsonl (cases in the op's own format); they run before the generated cases"""
     cases = []
-    for k in load_known():
-        if k.get("property") == pid and k.get("witness") is not None:
-            cases.append(json.dumps(k["witness"]))
-    d = os.path.join(VERIF, "corpus", pid)
-    if os.path.isdir(d):
-        for fn in sorted(os.listdir(d)):
-            if fn.endswith(".jsonl"):
-                for l in open(os.path.join(d, fn)):
-                    if l.strip():
-                        cases.append(l.strip())
+    if first:
+        for k in load_known():
+            if k.get("property") == pid and k.get("witness") is not None:
+                cases.append(json.dumps(k["witness"]))
+    fn = os.path.join(VERIF, "corpus", pid, op + ".jsonl")
+    if os.path.exists(fn):
+        for l in open(fn):
+            if l.strip():
+                cases.append(l.strip())
     if not cases:
         return None
-    path = os.path.join(workdir, "corpus.jsonl")
+    path = os.path.join(workdir, "corpus-%s.jsonl" % op)
     with open(path, "w") as f:
         f.write("\n".join(cases) + "\n")
     return path
